@@ -19,7 +19,7 @@ from guards import describe, anchors
 
 ADD = ("checked_add", "wrapping_add", "saturating_add", "unchecked_add", "strict_add", "overflowing_add")
 SUB = ("checked_sub", "wrapping_sub", "saturating_sub", "unchecked_sub", "strict_sub", "overflowing_sub")
-PASS = ("ok_or", "ok_or_else", "unwrap", "unwrap_unchecked", "expect", "branch", "unwrap_or_default", "from_output", "into", "from")
+PASS = ("ok_or", "ok_or_else", "unwrap", "unwrap_unchecked", "expect", "branch", "unwrap_or_default", "unwrap_or", "unwrap_or_else", "from_output", "into", "from")
 NUM = "core::num::<impl usize>::"
 
 
@@ -145,7 +145,15 @@ def lin(cx, e, depth=0):
                 return v[2]
         if n in ("repr::Repr::len", "repr::heap_buffer::HeapBuffer::len", "LeanString::len") and args:
             return Lin.sym("len(%s)" % _root(cx, args[0]))
-        if n in ("core::cmp::Ord::min", "core::cmp::min", "core::cmp::Ord::max", "core::cmp::max"):
+        if n in ("core::cmp::Ord::min", "core::cmp::min", "core::cmp::Ord::max", "core::cmp::max") and len(args) == 2:
+            # a clamp that is the identity for every value of the (non-negative) symbols: x.min(x + k)
+            la, lb = lin(cx, args[0], depth + 1), lin(cx, args[1], depth + 1)
+            d = la - lb
+            if "?deep" not in d.t:
+                if all(v <= 0 for v in d.t.values()) and d.c <= 0:      # a <= b always
+                    return la if leaf == "min" else lb
+                if all(v >= 0 for v in d.t.values()) and d.c >= 0:      # a >= b always
+                    return lb if leaf == "min" else la
             return Lin.sym(cx.desc(e))
         key = t.get("local_key")
         F = b.facts
@@ -523,7 +531,7 @@ def rule_moves(ctx, rule="T7-moves"):
         # the removed char is the one at idx
         if w is not None and w.t:
             sym = list(w.t)[0]
-            ctx.ob(rule, b.path, "w=char-at-idx", re.search(r"RangeFrom\{p2\}|Range::Range\{p2, ", sym) is not None and "next(" in sym, how="w is the width of the first char of text[idx..]",
+            ctx.ob(rule, b.path, "w=char-at-idx", re.search(r"RangeFrom\{p2\}|Range::Range\{p2, ", sym) is not None and ("next(" in sym or "item(core::str::<impl str>::chars(" in sym), how="w is the width of the first char of text[idx..]",
                    detail="the width used is %s" % sym[:200])
     # ---- pop: new length = len - width of the last char
     b = need_anchor("repr::Repr::pop")
@@ -535,6 +543,19 @@ def rule_moves(ctx, rule="T7-moves"):
             w = L("p1") - tr[0][2]
             ws = list(w.t.items())
             ok = w.c == 0 and len(ws) == 1 and ws[0][1] == 1 and "len_utf8(" in ws[0][0] and ("next_back(" in ws[0][0] or "::rev(" in ws[0][0])
+        if not ok and len(tr) == 1 and tr[0][1] == "p1":
+            # the same length, read off the iterator: `char_indices().next_back()` yields the byte
+            # offset at which the last char starts
+            nl = tr[0][2]
+            syms = list(nl.t.items())
+            if nl.c == 0 and len(syms) == 1 and syms[0][1] == 1 and re.match(r"^some\(<core::str::iter::CharIndices<'a> as core::iter::traits::double_ended::DoubleEndedIterator>::next_back\(.*\)\)\.0$", syms[0][0]):
+                from guards import _iter_source
+                srcs = []
+                for bb, t in b.calls():
+                    if callee_name(t).endswith("DoubleEndedIterator>::next_back") and "CharIndices" in callee_name(t):
+                        it = _iter_source(b, b.origin_operand(t["args"][0]))
+                        srcs.append(describe(b, it))
+                ok = len(srcs) == 1 and srcs[0] in ("core::str::<impl str>::char_indices(repr::Repr::as_str(p1))", "core::str::<impl str>::char_indices(TEXT(p1))")
         ctx.ob(rule, b.path, "new-len", ok and not ms, how="truncates to len(self) - len_utf8(last char)", detail="pop sets the length to %s (moves: %s)" % ([str(x[2]) for x in tr], show(ms)))
     # ---- constructors that copy a text: the whole text, to the start of the fresh storage
     for fn, textp in (("repr::heap_buffer::HeapBuffer::new", 1), ("repr::heap_buffer::HeapBuffer::with_additional", 1), ("repr::heap_buffer::HeapBuffer::with_exact_capacity", 1), ("repr::inline_buffer::InlineBuffer::new", 1)):
